@@ -295,7 +295,13 @@ func runProperty(repo, specs, prop, tier, out string) int {
 	kfs := loadKnownFindings(filepath.Join(vd, "KNOWN_FINDINGS.txt"))
 	violations := 0
 	var knownSeen []string
-	replayBudget := 4
+	replayBudget := 4 // failed obligations for which a failing input is searched (model, unrolled search, go test)
+	if tier == "thorough" {
+		replayBudget = 12
+	}
+	if os.Getenv("VERIF_NO_REPLAY") != "" {
+		replayBudget = 0 // must-fail corpus runs only need the verdict
+	}
 	for _, f := range failures {
 		known := false
 		for _, kf := range kfs {
